@@ -3,7 +3,8 @@ import prims
 import values
 from values import VAL, show
 from runner import inst
-from rules.common import (tags_of, cls_of, witness_path, arg_role, obj_root, outcomes, is_temp_object, callback_kind, path_class)
+from rules.common import (tags_of, cls_of, witness_path, arg_role, obj_root, outcomes, is_temp_object, callback_kind, path_class,
+                          unrewound, obj_handle_root)
 from rules.c15 import stack_entries
 from graph import path_brief
 
@@ -12,9 +13,10 @@ EXPLANATION = ('(R01.1) in every stacked-cache entry point every content write (
                'file, a lookup result or the caller\'s path; no open-for-write / create / truncate primitive exists anywhere in '
                'the crate; (R01.2) the only primitives whose created path is (directory + key) are rename and hard_link, with the '
                'caller\'s source as their source; (R01.3) for each temp file the stacked cache creates and inserts, the Ok outcome '
-               'of its content write dominates the insert and no content write on it is reachable after the insert. Atomicity of '
+               'of its content write dominates the insert and no content write on it is reachable after the insert; (R01.4) the '
+               'source handle of a copy into such a file is at offset 0 on every path (rewound after any consumer). Atomicity of '
                'rename/link/open is POSIX, trusted; interleavings are not enumerated.')
-FLOORS = {'R01.1': 8, 'R01.2': 4, 'R01.3': 6}
+FLOORS = {'R01.1': 8, 'R01.2': 4, 'R01.3': 6, 'R01.4': 2}
 FIXTURE_RULES = ['R01.1']
 
 INPLACE = {'open_rw', 'truncate', 'ns_create_file'}
@@ -120,9 +122,32 @@ def r01_3(ctx):
     return out
 
 
+def r01_4(ctx):
+    """the source of a copy into a file that will be published is read from its start: no path on which the
+    source handle was consumed (lent to a checker/judge, read, copied) reaches the copy without a rewind."""
+    out = []
+    for name, k in stack_entries(ctx):
+        q = ctx.explore(k, mode='layer')
+        copies = [e for e in q.prim_edges('content_write') if 'src' in prims.classify(q.E[e][2]['path'])[1]]
+        by_src = {}
+        for e in copies:
+            by_src.setdefault(obj_handle_root(arg_role(q.E[e][2], 'src')), []).append(e)
+        for root, es in by_src.items():
+            until = {q.E[e][0] for e in es}
+            bad, D, S = unrewound(ctx, q, root, until)
+            # the copy itself consumes the source: exclude copy edges as dirtiers of their own start
+            bad = [b for b in bad if b not in es]
+            out.append(inst('R01.4', '%s|copy source rewound' % name, not bad,
+                            'the copied handle is at offset 0 on every path to the copy (%d consuming sites, %d rewinds)' % (len(D), len(S)) if not bad else
+                            'the hit is copied into the file to publish after having been consumed (%s) without a rewind: a truncated/empty '
+                            'value would be published' % q.E[bad[0]][2]['site'][2],
+                            path=witness_path(q, bad[0]) if bad else []))
+    return out
+
+
 def run(ctx):
     from runner import collect
-    return collect(ctx, r01_1, r01_2, r01_3)
+    return collect(ctx, r01_1, r01_2, r01_3, r01_4)
 
 
 def run_fixture(fctx):
